@@ -538,11 +538,22 @@ func runOnce(out *vh.Out, rng *vh.Rng, runNo int, mode string) {
 		N = 2 + rng.Intn(6)
 	}
 	// power distribution
+	style := rng.Intn(5)
+	if style == 4 {
+		// quorum-boundary tables: three equal members and dust, scaled total not divisible by 3, so that two
+		// big members weigh exactly floor(2T/3) (one short of a strong quorum) and one big member is < 1/3
+		N = 4 + rng.Intn(2)
+	}
 	entries := make(gpbft.PowerEntries, N)
-	style := rng.Intn(4)
 	for i := 0; i < N; i++ {
 		var pw int64
 		switch style {
+		case 4:
+			if i < 3 {
+				pw = 21844
+			} else {
+				pw = 1
+			}
 		case 0:
 			pw = 100
 		case 1:
